@@ -5,38 +5,42 @@ From DV Require C20.ProofsEx.
 Import ListNotations.
 Local Open Scope N_scope.
 
-Theorem C20_served_was_received : forall cfg evs st os k op now delay u st' r,
+Theorem C20_served_was_received : forall cfg evs st os ev k now qc st' r,
+  request_of ev = Some (k, now, qc) ->
   run cfg state_init evs = Ok (st, os) ->
-  step cfg st (EQuery k op now delay u) = Ok (st', OServed r) ->
+  step cfg st ev = Ok (st', OServed r) ->
   exists k0 t0 u0,
     logged evs os (k0, t0, u0) /\ same_question k0 k /\ flags_compatible k0 k /\ derives u0 r.
 Proof. exact served_was_received. Qed.
 Print Assumptions C20_served_was_received.
 
-Theorem C20_ttl_aged_never_increased : forall cfg evs st os k op now delay u st' r,
+Theorem C20_ttl_aged_never_increased : forall cfg evs st os ev k now qc st' r,
+  request_of ev = Some (k, now, qc) ->
   cfg_ok cfg ->
   run cfg state_init evs = Ok (st, os) ->
-  step cfg st (EQuery k op now delay u) = Ok (st', OServed r) ->
+  step cfg st ev = Ok (st', OServed r) ->
   exists k0 t0 u0,
     logged evs os (k0, t0, u0) /\ same_question k0 k /\ resp_aged ((now - t0) / 1000) u0 r.
 Proof. exact ttl_aged. Qed.
 Print Assumptions C20_ttl_aged_never_increased.
 
-Theorem C20_never_stale : forall cfg evs st os k op now delay u st' r,
+Theorem C20_never_stale : forall cfg evs st os ev k now qc st' r,
+  request_of ev = Some (k, now, qc) ->
   cfg_ok cfg ->
   run cfg state_init evs = Ok (st, os) ->
   ~ lookup_failed cfg st k ->
-  step cfg st (EQuery k op now delay u) = Ok (st', OServed r) ->
+  step cfg st ev = Ok (st', OServed r) ->
   exists k0 t0 u0,
     logged evs os (k0, t0, u0) /\ same_question k0 k /\ derives u0 r /\
     fresh_by_class cfg (now - t0) u0 r.
 Proof. exact never_stale. Qed.
 Print Assumptions C20_never_stale.
 
-Theorem C20_never_stale_unconditional : forall cfg evs st os k op now delay u st' r,
+Theorem C20_never_stale_unconditional : forall cfg evs st os ev k now qc st' r,
+  request_of ev = Some (k, now, qc) ->
   cfg_ok cfg ->
   run cfg state_init evs = Ok (st, os) ->
-  step cfg st (EQuery k op now delay u) = Ok (st', OServed r) ->
+  step cfg st ev = Ok (st', OServed r) ->
   exists k0 t0 u0,
     logged evs os (k0, t0, u0) /\ same_question k0 k /\ derives u0 r /\
     fresh_by_class cfg (now - t0) u0 r.
@@ -57,8 +61,8 @@ Theorem C20_lookup_failed_only_before_fix : forall cfg evs st os k,
 Proof. exact lookup_failed_only_before_fix. Qed.
 Print Assumptions C20_lookup_failed_only_before_fix.
 
-Theorem C20_expired_entry_not_served : forall v now,
-  v_valid v * 1000 < now - v_created v -> get_response v now = None.
+Theorem C20_expired_entry_not_served : forall v now qc,
+  v_valid v * 1000 < now - v_created v -> get_response v now qc = None.
 Proof. exact expired_entry_not_served. Qed.
 Print Assumptions C20_expired_entry_not_served.
 
@@ -82,9 +86,10 @@ Theorem C20_no_panic_refuted : classify_expects_question = true ->
 Proof. exact no_panic_refuted. Qed.
 Print Assumptions C20_no_panic_refuted.
 
-Theorem C20_no_dnssec_leak : forall cfg evs st os k op now delay u st' r,
+Theorem C20_no_dnssec_leak : forall cfg evs st os ev k now qc st' r,
+  request_of ev = Some (k, now, qc) ->
   run cfg state_init evs = Ok (st, os) ->
-  step cfg st (EQuery k op now delay u) = Ok (st', OServed r) ->
+  step cfg st ev = Ok (st', OServed r) ->
   exists k0 t0 u0,
     logged evs os (k0, t0, u0) /\ same_question k0 k /\ flags_compatible k0 k /\ derives u0 r /\
     (k_addo k <> AdDo_Do -> k_addo k0 = AdDo_Do -> no_dnssec r) /\
@@ -97,25 +102,33 @@ Theorem C20_stripped_types_are_rrsig_nsec_nsec3 : forall l, no_dnssec_rrs l ->
 Proof. exact no_dnssec_types. Qed.
 Print Assumptions C20_stripped_types_are_rrsig_nsec_nsec3.
 
-Theorem C20_no_leak_honest_upstream : forall cfg evs st os k op now delay u st' r,
+Theorem C20_no_leak_honest_upstream : forall cfg evs st os ev k now qc st' r,
+  request_of ev = Some (k, now, qc) ->
   run cfg state_init evs = Ok (st, os) -> upstream_respects_flags (s_log st) ->
-  step cfg st (EQuery k op now delay u) = Ok (st', OServed r) ->
+  step cfg st ev = Ok (st', OServed r) ->
   (k_addo k <> AdDo_Do -> no_dnssec r) /\ (k_addo k = AdDo_None -> resp_ad r = false).
 Proof. exact no_leak_honest_upstream. Qed.
 Print Assumptions C20_no_leak_honest_upstream.
 
-Theorem C20_boundary_served : forall cfg st k now delay u v,
+Theorem C20_boundary_served : forall cfg st k qc now delay u v,
   inv cfg st -> k_class k = class_in -> cget k (s_cache st) = Some v ->
   now - v_created v = v_valid v * 1000 ->
-  exists st' r, step cfg st (EQuery k 0 now delay u) = Ok (st', OServed r).
+  exists st' r, step cfg st (EQuery k 0 qc now delay u) = Ok (st', OServed r).
 Proof. exact boundary_served. Qed.
 Print Assumptions C20_boundary_served.
 
-Theorem C20_only_query_in_is_cached : forall cfg st k op now delay u,
+Theorem C20_only_query_in_is_cached : forall cfg st k op qc now delay u,
   op <> 0 \/ k_class k <> class_in ->
-  step cfg st (EQuery k op now delay u) = Ok (st, OBypass).
+  step cfg st (EQuery k op qc now delay u) = Ok (st, OBypass) /\
+  step cfg st (EStart k op qc now) = Ok (st, OBypass).
 Proof. exact bypass_untouched. Qed.
 Print Assumptions C20_only_query_in_is_cached.
+
+Theorem C20_question_spelled_as_asked : forall cfg st ev k now qc st' m,
+  request_of ev = Some (k, now, qc) ->
+  inv cfg st -> step cfg st ev = Ok (st', OServed (RMsg m)) -> m_q m <> None -> m_qcase m = qc.
+Proof. exact served_question_case. Qed.
+Print Assumptions C20_question_spelled_as_asked.
 
 Theorem C20_store_invariant : forall cfg evs st os,
   run cfg state_init evs = Ok (st, os) -> inv cfg st.
